@@ -84,8 +84,14 @@ class P(ServeProp):
         meth = httpcanon.request_method(req)      # as the parser sees it (U+2028 or CR before "OPTIONS" is trimmed away)
         cl = httpcanon.header(r, "Content-Length")
         if meth in (b"HEAD", b"OPTIONS"):
-            # no body; the 400 for a request that could not be parsed is built without knowing the method and carries its message
-            if r["body"] != b"" and not (r["status"] == 400 and cl == [str(len(r["body"]))]):
+            # no body; the 400 for a request that could not be parsed is built without knowing the method and carries its message - but a
+            # request that certainly parses (plain ASCII head, known method and version, three fields) has a known method whatever its target
+            head = req.split(b"\r\n\r\n")[0]
+            lines = head.split(b"\r\n")
+            rl = lines[0].split(b" ")
+            surely_parsed = (b"\r\n\r\n" in req and all(all(32 <= c < 127 for c in l) for l in lines) and len(rl) == 3 and rl[1] != b"" and
+                             rl[2].upper() in (b"HTTP/0.9", b"HTTP/1.0", b"HTTP/1.1", b"HTTP/2.0") and all(b": " in l for l in lines[1:]))
+            if r["body"] != b"" and not (r["status"] == 400 and cl == [str(len(r["body"]))] and not surely_parsed):
                 return "body-on-head-or-options"
         elif cl and cl[0] != str(len(r["body"])):
             return "content-length-%s-body-%d" % (cl[0], len(r["body"]))
